@@ -321,6 +321,26 @@ func c13BlocksContent(v *c13Ver, which string) (bc [3]int, list []annElem) {
 	return
 }
 
+// c13BulkContent is the content of the bulk ingestion: the three label blocks (-1,0,0), (0,0,0), (1,0,0), 520 elements
+// each (two full z planes and eight more), every element tagged t1 and every second one t2, kinds cycling; no relationships.
+// The menu positions 0 (2,3,4) and 5 (-20,3,3) stay free of bulk elements only by accident of the grid: (2,3,4) has z=4.
+func c13BulkContent() map[[3]int][]annElem {
+	kinds := []string{"PreSyn", "PostSyn", "Gap", "Note"}
+	out := map[[3]int][]annElem{}
+	for bx := -1; bx <= 1; bx++ {
+		var list []annElem
+		for i := 0; i < 520; i++ {
+			e := annElem{Pos: [3]int{bx*c13BS + i%16, (i / 16) % 16, i / 256}, Kind: kinds[i%4], Tags: []string{"t1"}}
+			if i%2 == 1 {
+				e.Tags = []string{"t1", "t2"}
+			}
+			list = append(list, e)
+		}
+		out[[3]int{bx, 0, 0}] = list
+	}
+	return out
+}
+
 // ---- label volume ----
 
 func c13InitialVolume() []uint64 {
@@ -842,6 +862,27 @@ func (w *c13World) apply(op c13Op) (code int, desc, class string, viols []c13Vio
 		v.mPost(list...)
 		vsrv.Quiesce()
 		w.reload(u, parts[1], expectOK)
+	case "bulkblocks":
+		class = "bulkblocks+reload:" + op.V
+		content := c13BulkContent()
+		body := map[string][]annElem{}
+		for bc, list := range content {
+			body[c13BlockKey(bc)] = list
+		}
+		b, _ := json.Marshal(body)
+		if !expectOK(vsrv.Post(ann+"blocks", b)) {
+			break
+		}
+		for _, p := range v.sortedPos() {
+			if _, replaced := content[c13Block(p)]; replaced {
+				delete(v.elems, p)
+			}
+		}
+		for _, list := range content {
+			v.mPost(list...)
+		}
+		vsrv.Quiesce()
+		w.reload(u, op.V, expectOK)
 	case "reload":
 		class = "reload:" + op.V
 		w.reload(u, op.V, expectOK)
